@@ -149,11 +149,11 @@ Lemma own_king_after p m K : legal_pos p = true -> lfacts p K -> pm_kind p m ->
              at_ (brd (make p m)) k' = mk_piece (stm p) KING.
 Proof.
   intros Hlp Hf Hk. pose proof Hf as [Hl Hv Hs HKe HK HKat HKu [Hok1 Hok2] Hou Hno].
-  set (b := brd p) in *. set (c := stm p) in *. set (k0 := king_sq b c) in *.
   destruct Hk as [H1 H2 H3 H4 H5 H6 | H1 H2 H3 H4 H5 H6 H7 H8 | kf kt rf bt empties Hc Hm Hk Hr He].
   - (* normal move or promotion *)
     assert (Hmt : mtype m = NORMAL \/ mtype m = PROMOTION) by (destruct H6 as [[? _]|[? _]]; tauto).
-    pose proof (at_make_simple p m Hl H1 H2 Hmt) as Hat. fold b c in Hat.
+    pose proof (at_make_simple p m Hl H1 H2 Hmt) as Hat.
+    set (b := brd p) in *. set (c := stm p) in *. set (k0 := king_sq b c) in *.
     set (f := mfrom m) in *. set (t := mto m) in *.
     assert (Hft : f <> t).
     { intros E. destruct H5 as [H0|[_ [H0 _]]]; rewrite <- E in H0; contradiction. }
@@ -161,42 +161,46 @@ Proof.
     { intros E. destruct H5 as [H0|[_ [H0 _]]]; rewrite <- E in H0; rewrite Hok2 in H0.
       - unfold mk_piece, KING in H0. lia.
       - rewrite col_of_mk in H0 by (unfold KING; lia). contradiction. }
+    assert (Hsame : forall a, a < 64 -> ~ In a [f; t] -> at_ (brd (make p m)) a = at_ b a).
+    { intros a _ Hn'. rewrite Hat. cbn [In] in Hn'.
+      destruct (N.eqb_spec a t); [exfalso; apply Hn'; auto|].
+      destruct (N.eqb_spec a f); [exfalso; apply Hn'; auto|reflexivity]. }
+    assert (Hatf : at_ (brd (make p m)) f = 0).
+    { rewrite Hat. apply N.eqb_neq in Hft. now rewrite Hft, N.eqb_refl. }
     destruct (N.eq_dec (at_ b f) (mk_piece c KING)) as [Ek|Ek].
     + (* the king moves *)
       assert (Hn : mtype m = NORMAL).
       { destruct H6 as [[? _]|[_ [E _]]]; [assumption|]. rewrite Ek in E.
         destruct (mk_piece_parts c KING) as [_ Ht']; [unfold KING; lia|]. rewrite Ht' in E. discriminate. }
-      exists t. split; [|split; [exact H2|]].
-      * apply (own_king_intro b _ c t [f; t]); try assumption.
-        -- rewrite Hat, N.eqb_refl, Hn. change (NORMAL =? PROMOTION) with false. cbv iota. exact Ek.
-        -- intros a _ Hn'. rewrite Hat. cbn [In] in Hn'.
-           destruct (N.eqb_spec a t); [exfalso; apply Hn'; auto|].
-           destruct (N.eqb_spec a f); [exfalso; apply Hn'; auto|reflexivity].
-        -- intros a [<-|[<-|[]]] Hne; [|contradiction]. rewrite Hat.
-           apply N.eqb_neq in Hft. rewrite Hft, N.eqb_refl. unfold mk_piece, KING. lia.
-        -- intros s Hs' Hs'' Hnin. exfalso. apply Hnin. left.
-           pose proof (Hou s Hs' Hs''). pose proof (Hou f H1 Ek). congruence.
-      * rewrite Hat, N.eqb_refl, Hn. change (NORMAL =? PROMOTION) with false. cbv iota. exact Ek.
+      assert (Hatt : at_ (brd (make p m)) t = mk_piece c KING).
+      { rewrite Hat, N.eqb_refl, Hn. change (NORMAL =? PROMOTION) with false. cbv iota. exact Ek. }
+      exists t. split; [|split; [exact H2|exact Hatt]].
+      apply (own_king_intro b _ c t [f; t]); try assumption.
+      * intros a [<-|[<-|[]]] Hne; [|contradiction]. rewrite Hatf. unfold mk_piece, KING. lia.
+      * intros s Hs' Hs'' Hnin. exfalso. apply Hnin. left.
+        pose proof (Hou s Hs' Hs''). pose proof (Hou f H1 Ek). congruence.
     + (* another piece moves *)
       assert (Hk0f : k0 <> f) by (intros E; apply Ek; rewrite <- E; exact Hok2).
       assert (Hat0 : at_ (brd (make p m)) k0 = mk_piece c KING).
       { rewrite Hat. apply N.eqb_neq in Hk0t, Hk0f. now rewrite Hk0t, Hk0f. }
       exists k0. split; [|split; [exact Hok1|exact Hat0]].
       apply (own_king_intro b _ c k0 [f; t]); try assumption.
-      * intros a _ Hn'. rewrite Hat. cbn [In] in Hn'.
-        destruct (N.eqb_spec a t); [exfalso; apply Hn'; auto|].
-        destruct (N.eqb_spec a f); [exfalso; apply Hn'; auto|reflexivity].
-      * intros a [<-|[<-|[]]] Hne; rewrite Hat.
-        -- apply N.eqb_neq in Hft. rewrite Hft, N.eqb_refl. unfold mk_piece, KING. lia.
-        -- rewrite N.eqb_refl. destruct H6 as [[E1 _]|[E1 [_ E2]]]; rewrite E1.
+      * intros a [<-|[<-|[]]] Hne.
+        -- rewrite Hatf. unfold mk_piece, KING. lia.
+        -- rewrite Hat, N.eqb_refl. destruct H6 as [[E1 _]|[E1 [_ E2]]]; rewrite E1.
            ++ change (NORMAL =? PROMOTION) with false. cbv iota. exact Ek.
            ++ change (PROMOTION =? PROMOTION) with true. cbv iota. unfold mk_piece, KING. lia.
       * intros s Hs' Hs'' _. now apply Hou.
   - (* en passant *)
     assert (Hne : ep p <> 64) by (rewrite <- H4; lia).
     destruct (legal_ep_facts p Hlp Hne) as (Hr & _ & Hvic). rewrite <- H4 in Hr, Hvic.
-    pose proof (at_make_ep p m Hl Hs H3 H5 Hr H1 H8) as Hat. fold b c in Hat, Hvic.
+    pose proof (at_make_ep p m Hl Hs H3 H5 Hr H1 H8) as Hat.
+    set (b := brd p) in *. set (c := stm p) in *. set (k0 := king_sq b c) in *.
     set (f := mfrom m) in *. set (t := mto m) in *. set (v := ep_victim c t) in *.
+    assert (Hvt : v <> t) by (unfold v, ep_victim; destruct (c =? WHITE); lia).
+    assert (Hft : f <> t) by (intros E; rewrite E in H6; rewrite H6 in H7; unfold mk_piece, PAWN in H7; lia).
+    assert (Hvf : v <> f).
+    { intros E. rewrite E in Hvic. rewrite H6 in Hvic. unfold mk_piece, PAWN, flip in Hvic. lia. }
     assert (Hk0 : k0 <> f /\ k0 <> t /\ k0 <> v).
     { repeat split; intros E; rewrite E in Hok2; rewrite Hok2 in *.
       - unfold mk_piece, KING, PAWN in H6. lia.
@@ -211,13 +215,434 @@ Proof.
       destruct (N.eqb_spec a v); [exfalso; apply Hn'; auto|].
       destruct (N.eqb_spec a t); [exfalso; apply Hn'; auto|].
       destruct (N.eqb_spec a f); [exfalso; apply Hn'; auto|reflexivity].
-    + intros a Hin _. rewrite Hat.
-      destruct (a =? v); [unfold mk_piece, KING; lia|].
-      destruct (a =? t); [rewrite H6; unfold mk_piece, KING, PAWN; lia|].
-      destruct (N.eqb_spec a f) as [_|Hnf]; [unfold mk_piece, KING; lia|].
-      exfalso. destruct Hin as [E|[E|[E|[]]]]; try (symmetry in E; contradiction).
-      * admit.
-      * admit.
+    + intros a [<-|[<-|[<-|[]]]] _; rewrite Hat.
+      * replace (f =? v) with false by (symmetry; apply N.eqb_neq; congruence).
+        apply N.eqb_neq in Hft. rewrite Hft, N.eqb_refl. unfold mk_piece, KING. lia.
+      * replace (t =? v) with false by (symmetry; apply N.eqb_neq; congruence).
+        rewrite N.eqb_refl, H6. unfold mk_piece, KING, PAWN. lia.
+      * rewrite N.eqb_refl. unfold mk_piece, KING. lia.
     + intros s Hs' Hs'' _. now apply Hou.
-  - admit.
-Admitted.
+  - (* castling *)
+    subst m. unfold is_piece in Hk, Hr. apply N.eqb_eq in Hk, Hr.
+    assert (Hsq : kf < 64 /\ kt < 64 /\ rf < 64 /\ snd (rook_castle_squares kt) < 64 /\
+                  rook_castle_squares kt = (rf, snd (rook_castle_squares kt)) /\
+                  kf <> kt /\ kf <> rf /\ kf <> snd (rook_castle_squares kt) /\ kt <> rf /\
+                  kt <> snd (rook_castle_squares kt) /\ rf <> snd (rook_castle_squares kt)).
+    { assert (stm p = 0 \/ stm p = 1) as [E|E] by lia; rewrite E in Hc; cbn [castles N.eqb WHITE] in Hc;
+        destruct Hc as [Hc|[Hc|[]]]; injection Hc as <- <- <- <- <-; cbn; repeat split; try lia; reflexivity. }
+    set (rt := snd (rook_castle_squares kt)) in *.
+    destruct Hsq as (L1 & L2 & L3 & L4 & Hrcs & D1 & D2 & D3 & D4 & D5 & D6).
+    pose proof (at_make_castle p kf kt rf rt Hl L1 L2 L3 L4 Hrcs) as Hat.
+    set (b := brd p) in *. set (c := stm p) in *.
+    assert (Hatk : at_ (brd (make p (mkmv kf kt CASTLING 3))) kt = mk_piece c KING).
+    { rewrite Hat. apply N.eqb_neq in D5, D4. now rewrite D5, D4, N.eqb_refl. }
+    exists kt. split; [|split; [exact L2|exact Hatk]].
+    apply (own_king_intro b _ c kt [kf; kt; rf; rt]); try assumption.
+    + intros a _ Hn'. rewrite Hat. cbn [In] in Hn'.
+      destruct (N.eqb_spec a rt); [exfalso; apply Hn'; auto|].
+      destruct (N.eqb_spec a rf); [exfalso; apply Hn'; auto|].
+      destruct (N.eqb_spec a kt); [exfalso; apply Hn'; auto|].
+      destruct (N.eqb_spec a kf); [exfalso; apply Hn'; auto|reflexivity].
+    + intros a [<-|[<-|[<-|[<-|[]]]]] Hne; rewrite Hat.
+      * apply N.eqb_neq in D1, D2, D3. rewrite D3, D2, D1, N.eqb_refl. unfold mk_piece, KING. lia.
+      * contradiction.
+      * apply N.eqb_neq in D6. rewrite D6, N.eqb_refl. unfold mk_piece, KING. lia.
+      * rewrite N.eqb_refl. unfold mk_piece, KING, ROOK. lia.
+    + intros s Hs' Hs'' Hnin. exfalso. apply Hnin. left.
+      pose proof (Hou s Hs' Hs''). pose proof (Hou kf L1 Hk). congruence.
+Qed.
+
+(** ** "is the mover's king attacked after the move" -- the common tail of both tests *)
+Lemma after_check_exact p m K : legal_pos p = true -> lfacts p K -> pm_kind p m ->
+  (do k <- king_square (view_of_spec (make p m)) (flipc (vstm (view_of_spec (make p m))));
+   is_attacked_impl (view_of_spec (make p m)) k (vstm (view_of_spec (make p m))))
+  = Some (in_check_b (brd (make p m)) (stm p)).
+Proof.
+  intros Hlp Hf Hk. pose proof (lf_stm _ _ Hf) as Hs.
+  destruct (own_king_after p m K Hlp Hf Hk) as (k' & Hk1 & Hk2 & Hk3).
+  cbn [vstm view_of_spec]. rewrite make_stm.
+  rewrite flipc_flip by now apply flip_lt. rewrite flip_flip by exact Hs.
+  rewrite king_square_view by exact Hs. cbn [bind]. rewrite Hk1.
+  rewrite is_attacked_exact_wf; [|now apply wf_att_make|exact Hk2|now apply flip_lt].
+  f_equal. unfold is_attacked_spec, in_check_b. rewrite Hk1.
+  rewrite ep_conv1_false; [apply orb_false_r|].
+  unfold piece_at. rewrite Hk3. apply king_not_pawn.
+Qed.
+
+(** ** the castling clause (from-square and transit square) on any well-formed position *)
+Lemma castle_checks_exact q code kf tr c' : wf_att q -> c' < 2 -> kf < 64 -> tr < 64 ->
+  mv_from code = kf -> castle_transit_impl (mv_to code) = Some tr ->
+  piece_at q kf <> mk_piece (flip c') PAWN -> piece_at q tr <> mk_piece (flip c') PAWN ->
+  castle_checks (view_of_spec q) code c' = Some (attacked (brd q) kf c' || attacked (brd q) tr c').
+Proof.
+  intros Hwf Hc Hkf Htr Hfrom Hto Hp1 Hp2. unfold castle_checks. rewrite Hfrom, Hto.
+  rewrite is_attacked_exact_wf by assumption. cbn [bind]. unfold is_attacked_spec.
+  rewrite (ep_conv1_false q kf c' Hp1), orb_false_r.
+  destruct (attacked (brd q) kf c'); [reflexivity|]. cbn [orb].
+  rewrite is_attacked_exact_wf by assumption. unfold is_attacked_spec.
+  now rewrite (ep_conv1_false q tr c' Hp2), orb_false_r.
+Qed.
+
+Lemma castle_transit_eq kt : kt = 6 \/ kt = 2 \/ kt = 62 \/ kt = 58 ->
+  castle_transit_impl kt = Some (castle_transit kt) /\ castle_transit kt = snd (rook_castle_squares kt).
+Proof. intros [-> | [-> | [-> | ->]]]; split; reflexivity. Qed.
+
+(* concrete data of a castling move *)
+Record castle_data (p : pos) (kf kt rf rt : N) (empties : list N) : Prop := mk_cd {
+  cd_lt : kf < 64 /\ kt < 64 /\ rf < 64 /\ rt < 64;
+  cd_dist : kf <> kt /\ kf <> rf /\ kf <> rt /\ kt <> rf /\ kt <> rt /\ rf <> rt;
+  cd_rcs : rook_castle_squares kt = (rf, rt);
+  cd_kt : kt = 6 \/ kt = 2 \/ kt = 62 \/ kt = 58;
+  cd_kin : In kt empties;
+  cd_rin : In rt empties;
+  cd_in : exists bt, In (kf, kt, rf, bt, empties) (castles (stm p))
+}.
+
+Lemma castle_data_of p kf kt rf bt empties : stm p < 2 -> In (kf, kt, rf, bt, empties) (castles (stm p)) ->
+  castle_data p kf kt rf (snd (rook_castle_squares kt)) empties.
+Proof.
+  intros Hs Hc. assert (Hc' := Hc).
+  assert (stm p = 0 \/ stm p = 1) as [E|E] by lia; rewrite E in Hc; cbn [castles N.eqb WHITE] in Hc;
+    destruct Hc as [Hc|[Hc|[]]]; injection Hc as <- <- <- <- <-;
+    (constructor; [cbn; repeat split; lia | cbn; repeat split; lia | reflexivity | tauto | cbn; tauto | cbn; tauto
+                  | eexists; exact Hc']).
+Qed.
+
+(** ** castling: the from-square / transit-square tests give the same answer before and
+       after the move.  (The transit square can become attacked through the square the king
+       has left, but then the king's square was attacked along the same line.) *)
+Definition castle_legal_geom_ok (kf kt rf rt : N) (empties : list N) : bool :=
+  forallb (fun a =>
+    mem a (kf :: rf :: empties) ||
+    forallb (fun d =>
+      (negb (ray_in 0 d kf a) || forallb (fun u => negb (mem u [kf; kt; rf; rt])) (btw d kf a)) &&
+      (negb (ray_in 0 d rt a) || negb (mem kf (btw d rt a)) ||
+         (ray_in 0 d kf a && forallb (fun u => mem u (btw d rt a)) (btw d kf a))) &&
+      (negb (ray_in 0 d rt a) || forallb (fun u => negb (mem u [kt; rf; rt])) (btw d rt a)))
+    all_dirs) squares64.
+
+Lemma castle_legal_geom_all :
+  forallb (fun c => forallb (fun '(kf, kt, rf, _, empties) =>
+     castle_legal_geom_ok kf kt rf (snd (rook_castle_squares kt)) empties) (castles c)) [0; 1] = true.
+Proof. vm_compute. reflexivity. Qed.
+
+Lemma ray_transfer occA occB d s t : ray_in occA d s t = true ->
+  (forall u, In u (btw d s t) -> free occA u = true -> free occB u = true) ->
+  ray_in occB d s t = true.
+Proof.
+  rewrite (ray_in_char occA), (ray_in_char occB). intros H Hf. apply andb_true_iff in H as [H1 H2].
+  rewrite H1. cbn [andb]. rewrite forallb_forall in H2. apply forallb_forall. intros u Hu.
+  apply Hf; [exact Hu|now apply H2].
+Qed.
+
+Section CastleLegal.
+  Variables (b b' : list N) (us kf kt rf rt : N) (empties : list N).
+  Hypothesis Hus : us < 2.
+  Hypothesis Hl : length b = 64%nat.
+  Hypothesis Hlt : kf < 64 /\ kt < 64 /\ rf < 64 /\ rt < 64.
+  Hypothesis Hkf : at_ b kf = mk_piece us KING.
+  Hypothesis Hrf : at_ b rf = mk_piece us ROOK.
+  Hypothesis Hemp : forall e, In e empties -> at_ b e = 0.
+  Hypothesis Hktin : In kt empties.
+  Hypothesis Hrtin : In rt empties.
+  Hypothesis Hgeom : castle_legal_geom_ok kf kt rf rt empties = true.
+  Hypothesis Hb' : forall a, at_ b' a = if a =? rt then mk_piece us ROOK else if a =? rf then 0
+                                        else if a =? kt then mk_piece us KING else if a =? kf then 0 else at_ b a.
+  Variables (o o' : N).
+  Hypothesis Ho : o = occ_of b.
+  Hypothesis Ho' : o' = occ_of b'.
+
+  Let them := flip us.
+
+  Lemma not_enemy_own ty ty' : ty < 8 -> ty' < 8 -> mk_piece us ty <> mk_piece them ty'.
+  Proof.
+    intros H1 H2 E. assert (colour_of (mk_piece us ty) = colour_of (mk_piece them ty')) by now rewrite E.
+    rewrite !col_of_mk in H by assumption. unfold them in H. symmetry in H. now apply flip_neq in H.
+  Qed.
+
+  Lemma not_enemy_zero ty' : 1 <= ty' -> 0 <> mk_piece them ty'.
+  Proof. unfold mk_piece. lia. Qed.
+
+  Lemma same_off a : ~ In a [kf; kt; rf; rt] -> at_ b' a = at_ b a.
+  Proof.
+    intros Hn. rewrite Hb'. cbn [In] in Hn.
+    destruct (N.eqb_spec a rt); [exfalso; apply Hn; auto|].
+    destruct (N.eqb_spec a rf); [exfalso; apply Hn; auto 6|].
+    destruct (N.eqb_spec a kt); [exfalso; apply Hn; auto|].
+    destruct (N.eqb_spec a kf); [exfalso; apply Hn; auto|reflexivity].
+  Qed.
+
+  (* a square holding an enemy piece (before or after) is none of the special squares *)
+  Lemma enemy_sq a ty : 1 <= ty < 8 -> at_ b a = mk_piece them ty \/ at_ b' a = mk_piece them ty ->
+    mem a (kf :: rf :: empties) = false /\ ~ In a [kf; kt; rf; rt] /\ at_ b' a = at_ b a /\ at_ b a = mk_piece them ty.
+  Proof.
+    intros Hty H.
+    assert (Hb : at_ b a = mk_piece them ty /\ ~ In a [kf; kt; rf; rt]).
+    { destruct H as [H|H].
+      - split; [exact H|]. cbn [In]. intros [E|[E|[E|[E|[]]]]]; subst a.
+        + rewrite Hkf in H. revert H. apply not_enemy_own; unfold KING; lia.
+        + rewrite (Hemp kt Hktin) in H. revert H. apply not_enemy_zero. lia.
+        + rewrite Hrf in H. revert H. apply not_enemy_own; unfold ROOK; lia.
+        + rewrite (Hemp rt Hrtin) in H. revert H. apply not_enemy_zero. lia.
+      - assert (Hn : ~ In a [kf; kt; rf; rt]).
+        { rewrite Hb' in H. cbn [In]. intros [E|[E|[E|[E|[]]]]]; subst a.
+          - destruct (kf =? rt); [revert H; apply not_enemy_own; unfold ROOK; lia|].
+            destruct (kf =? rf); [revert H; apply not_enemy_zero; lia|].
+            destruct (kf =? kt); [revert H; apply not_enemy_own; unfold KING; lia|].
+            rewrite N.eqb_refl in H. revert H. apply not_enemy_zero. lia.
+          - destruct (kt =? rt); [revert H; apply not_enemy_own; unfold ROOK; lia|].
+            destruct (kt =? rf); [revert H; apply not_enemy_zero; lia|].
+            rewrite N.eqb_refl in H. revert H. apply not_enemy_own; unfold KING; lia.
+          - destruct (rf =? rt); [revert H; apply not_enemy_own; unfold ROOK; lia|].
+            rewrite N.eqb_refl in H. revert H. apply not_enemy_zero. lia.
+          - rewrite N.eqb_refl in H. revert H. apply not_enemy_own; unfold ROOK; lia. }
+        split; [|exact Hn]. now rewrite <- same_off. }
+    destruct Hb as [Hb Hn]. repeat split; try assumption; [|now apply same_off].
+    destruct (mem a (kf :: rf :: empties)) eqn:E; [|reflexivity]. exfalso.
+    apply mem_In in E. destruct E as [E|[E|E]].
+    - apply Hn. cbn. auto.
+    - apply Hn. cbn. auto.
+    - rewrite (Hemp a E) in Hb. revert Hb. apply not_enemy_zero. lia.
+  Qed.
+
+  Lemma free_same u : ~ In u [kf; kt; rf; rt] -> free o u = free o' u.
+  Proof.
+    intros Hn. unfold free. rewrite Ho, Ho', !occ_of_testbit. now rewrite same_off.
+  Qed.
+
+  Lemma kf_blocked : free o kf = false.
+  Proof.
+    unfold free. rewrite Ho, occ_of_testbit, Hkf. destruct Hlt as (L1 & _).
+    replace (kf <? 64) with true by (symmetry; now apply N.ltb_lt).
+    replace (mk_piece us KING =? 0) with false by (symmetry; apply N.eqb_neq; unfold mk_piece, KING; lia).
+    reflexivity.
+  Qed.
+
+  Lemma lgeom a d : a < 64 -> mem a (kf :: rf :: empties) = false ->
+    (ray_in 0 d kf a = true -> forall u, In u (btw d kf a) -> ~ In u [kf; kt; rf; rt]) /\
+    (ray_in 0 d rt a = true -> mem kf (btw d rt a) = true ->
+       ray_in 0 d kf a = true /\ forall u, In u (btw d kf a) -> In u (btw d rt a)) /\
+    (ray_in 0 d rt a = true -> forall u, In u (btw d rt a) -> ~ In u [kt; rf; rt]).
+  Proof.
+    intros Ha Hok. pose proof (forall_squares _ Hgeom a Ha) as H. cbv beta in H. rewrite Hok in H.
+    cbn [orb] in H. rewrite forallb_forall in H. specialize (H d (in_all_dirs d)).
+    apply andb_true_iff in H as [H H3]. apply andb_true_iff in H as [H1 H2].
+    split; [|split].
+    - intros E u Hu. rewrite E in H1. cbn [negb orb] in H1. rewrite forallb_forall in H1.
+      specialize (H1 u Hu). apply negb_true_iff in H1. intros Hin. apply mem_In in Hin. congruence.
+    - intros E1 E2. rewrite E1, E2 in H2. cbn [negb orb] in H2. apply andb_true_iff in H2 as [H2 H2'].
+      split; [exact H2|]. intros u Hu. rewrite forallb_forall in H2'. now apply mem_In, H2'.
+    - intros E u Hu. rewrite E in H3. cbn [negb orb] in H3. rewrite forallb_forall in H3.
+      specialize (H3 u Hu). apply negb_true_iff in H3. intros Hin. apply mem_In in Hin. congruence.
+  Qed.
+
+  (* the attack of one enemy piece on the king's square or the transit square, before/after *)
+  Lemma att_pair a : a < 64 ->
+    (att_from b' kf them a || att_from b' rt them a) = (att_from b kf them a || att_from b rt them a).
+  Proof.
+    intros Ha. destruct Hlt as (L1 & L2 & L3 & L4).
+    apply bool_eq_iff. rewrite !orb_true_iff.
+    assert (Hinv : forall X s, att_from X s them a = true ->
+              exists ty, 1 <= ty <= 6 /\ at_ X a = mk_piece them ty /\ type_clause X s them a ty = true)
+      by (intros X s; apply att_from_inv).
+    split.
+    - intros H.
+      assert (Hex : exists ty, 1 <= ty <= 6 /\ at_ b' a = mk_piece them ty).
+      { destruct H as [H|H]; destruct (Hinv _ _ H) as [ty [H1 [H2 _]]]; now exists ty. }
+      destruct Hex as [ty [Hty Hpa']].
+      destruct (enemy_sq a ty ltac:(lia) (or_intror Hpa')) as (Hok & Hn & Hsm & Hpa).
+      rewrite !(att_from_piece b' _ them a ty Hpa') in H by lia.
+      rewrite !(att_from_piece b _ them a ty Hpa) by lia.
+      destruct (type_cases ty Hty) as [Hns|Hsl].
+      + now rewrite <- !(nonslider_clause b' b _ them a ty Hns).
+      + rewrite !slider_clause in H |- * by assumption. rewrite <- Ho. rewrite <- Ho' in H.
+        unfold slide_in in *. rewrite !existsb_exists in *.
+        destruct H as [[d [Hd H]]|[d [Hd H]]].
+        * (* the king's old square after the move: same before *)
+          left. exists d. split; [exact Hd|]. apply (ray_transfer o' o); [exact H|].
+          intros u Hu Hfu. destruct (lgeom a d Ha Hok) as (G1 & _).
+          rewrite (ray_in_char o') in H. apply andb_true_iff in H as [Hal _].
+          rewrite (free_same u); [exact Hfu|]. now apply (G1 Hal).
+        * destruct (lgeom a d Ha Hok) as (G1 & G2 & G3).
+          assert (Hal : ray_in 0 d rt a = true).
+          { rewrite (ray_in_char o') in H. now apply andb_true_iff in H as [Hal _]. }
+          destruct (mem kf (btw d rt a)) eqn:Emk.
+          -- (* the line runs through the square the king has left *)
+             left. exists d. split; [exact Hd|].
+             destruct (G2 Hal eq_refl) as [Hal' Hsub].
+             rewrite (ray_in_char o). rewrite Hal'. cbn [andb]. apply forallb_forall. intros u Hu.
+             rewrite (free_same u) by now apply (G1 Hal').
+             rewrite (ray_in_char o') in H. apply andb_true_iff in H as [_ H].
+             rewrite forallb_forall in H. apply H. now apply Hsub.
+          -- right. exists d. split; [exact Hd|]. apply (ray_transfer o' o); [exact H|].
+             intros u Hu Hfu. rewrite (free_same u); [exact Hfu|].
+             pose proof (G3 Hal u Hu) as Hn3. cbn [In] in *. intros [E|[E|[E|[E|[]]]]]; subst u.
+             ++ apply mem_In in Hu. congruence.
+             ++ apply Hn3. auto.
+             ++ apply Hn3. auto.
+             ++ apply Hn3. auto.
+    - intros H.
+      assert (Hex : exists ty, 1 <= ty <= 6 /\ at_ b a = mk_piece them ty).
+      { destruct H as [H|H]; destruct (Hinv _ _ H) as [ty [H1 [H2 _]]]; now exists ty. }
+      destruct Hex as [ty [Hty Hpa]].
+      destruct (enemy_sq a ty ltac:(lia) (or_introl Hpa)) as (Hok & Hn & Hsm & _).
+      assert (Hpa' : at_ b' a = mk_piece them ty) by now rewrite Hsm.
+      rewrite !(att_from_piece b _ them a ty Hpa) in H by lia.
+      rewrite !(att_from_piece b' _ them a ty Hpa') by lia.
+      destruct (type_cases ty Hty) as [Hns|Hsl].
+      + now rewrite !(nonslider_clause b' b _ them a ty Hns).
+      + rewrite !slider_clause in H |- * by assumption. rewrite <- Ho'. rewrite <- Ho in H.
+        unfold slide_in in *. rewrite !existsb_exists in *.
+        destruct H as [[d [Hd H]]|[d [Hd H]]].
+        * left. exists d. split; [exact Hd|]. apply (ray_transfer o o'); [exact H|].
+          intros u Hu Hfu. destruct (lgeom a d Ha Hok) as (G1 & _).
+          rewrite (ray_in_char o) in H. apply andb_true_iff in H as [Hal _].
+          rewrite <- (free_same u); [exact Hfu|]. now apply (G1 Hal).
+        * right. exists d. split; [exact Hd|]. apply (ray_transfer o o'); [exact H|].
+          intros u Hu Hfu. destruct (lgeom a d Ha Hok) as (_ & _ & G3).
+          assert (Hal : ray_in 0 d rt a = true).
+          { rewrite (ray_in_char o) in H. now apply andb_true_iff in H as [Hal _]. }
+          rewrite <- (free_same u); [exact Hfu|].
+          pose proof (G3 Hal u Hu) as Hn3. cbn [In] in *. intros [E|[E|[E|[E|[]]]]]; subst u.
+          -- rewrite kf_blocked in Hfu. discriminate.
+          -- apply Hn3. auto.
+          -- apply Hn3. auto.
+          -- apply Hn3. auto.
+  Qed.
+
+  Theorem castle_squares_same :
+    attacked b' kf them || attacked b' rt them = attacked b kf them || attacked b rt them.
+  Proof.
+    destruct Hlt as (L1 & L2 & L3 & L4). assert (Ht : them < 2) by (unfold them; now apply flip_lt).
+    apply bool_eq_iff. rewrite !orb_true_iff, !attacked_ex by assumption.
+    split; intros H.
+    - assert (Hex : exists a, a < 64 /\ (att_from b' kf them a || att_from b' rt them a) = true).
+      { destruct H as [[a [Ha H]]|[a [Ha H]]]; exists a; (split; [exact Ha|]); rewrite H; [reflexivity|apply orb_true_r]. }
+      destruct Hex as [a [Ha Hor]]. rewrite att_pair in Hor by exact Ha.
+      apply orb_true_iff in Hor as [Hor|Hor]; [left|right]; now exists a.
+    - assert (Hex : exists a, a < 64 /\ (att_from b kf them a || att_from b rt them a) = true).
+      { destruct H as [[a [Ha H]]|[a [Ha H]]]; exists a; (split; [exact Ha|]); rewrite H; [reflexivity|apply orb_true_r]. }
+      destruct Hex as [a [Ha Hor]]. rewrite <- att_pair in Hor by exact Ha.
+      apply orb_true_iff in Hor as [Hor|Hor]; [left|right]; now exists a.
+  Qed.
+End CastleLegal.
+
+(** ** IsLegalMove and WasLegalMove *)
+Lemma flipc_flipc_stm p m : stm p < 2 -> flipc (vstm (view_of_spec (make p m))) = stm p.
+Proof.
+  intros Hs. cbn [vstm view_of_spec]. rewrite make_stm. rewrite flipc_flip by now apply flip_lt.
+  now apply flip_flip.
+Qed.
+
+Lemma negb_if (chk : bool) : (if chk then Some false else Some true) = Some (negb chk).
+Proof. now destruct chk. Qed.
+
+(* the castling clause before the move and after the move, for a castling move of the rules *)
+Lemma castle_clauses p kf kt rf bt empties :
+  legal_pos p = true -> In (kf, kt, rf, bt, empties) (castles (stm p)) ->
+  is_piece (brd p) kf (stm p) KING = true -> is_piece (brd p) rf (stm p) ROOK = true ->
+  forallb (fun s => at_ (brd p) s =? 0) empties = true ->
+  let m := mkmv kf kt CASTLING 3 in
+  let bad := attacked (brd p) kf (flip (stm p)) || attacked (brd p) (castle_transit kt) (flip (stm p)) in
+  castle_checks (view_of_spec p) (code m) (flip (stm p)) = Some bad /\
+  castle_checks (view_of_spec (make p m)) (code m) (flip (stm p)) = Some bad.
+Proof.
+  intros Hlp Hc Hk Hr He m bad. pose proof (legal_pos_facts p Hlp) as Hf.
+  pose proof Hf as [Hl Hv Hs HKe HK HKat HKu [Hok1 Hok2] Hou Hno].
+  pose proof (castle_data_of p kf kt rf bt empties Hs Hc) as [Hlt Hdist Hrcs Hkt4 Hkin Hrin _].
+  set (rt := snd (rook_castle_squares kt)) in *.
+  destruct Hlt as (L1 & L2 & L3 & L4). destruct Hdist as (D1 & D2 & D3 & D4 & D5 & D6).
+  unfold is_piece in Hk, Hr. apply N.eqb_eq in Hk, Hr.
+  assert (Hemp : forall e, In e empties -> at_ (brd p) e = 0).
+  { intros e Hein. rewrite forallb_forall in He. specialize (He e Hein). now apply N.eqb_eq in He. }
+  assert (Hpk : pm_kind p m) by (apply (pm_castle p m kf kt rf bt empties); try assumption; try reflexivity;
+                                 unfold is_piece; now apply N.eqb_eq).
+  destruct (pm_kind_bounds p m Hs Hpk) as (B1 & B2 & B3 & B4).
+  destruct (decode_code m B2 B1 B3 B4) as (E1 & E2 & E3 & E4). cbn [mto mfrom mtype mprom m] in E1, E2, E3, E4.
+  destruct (castle_transit_eq kt Hkt4) as [Htr1 Htr2]. fold rt in Htr2.
+  assert (Hbad : bad = attacked (brd p) kf (flip (stm p)) || attacked (brd p) rt (flip (stm p))).
+  { unfold bad. now rewrite Htr2. }
+  assert (Hfl : flip (flip (stm p)) = stm p) by now apply flip_flip.
+  split.
+  - rewrite Hbad. apply castle_checks_exact; try assumption.
+    + now apply legal_pos_wf.
+    + now apply flip_lt.
+    + rewrite E1, Htr1, Htr2. reflexivity.
+    + unfold piece_at. rewrite Hk, Hfl. apply king_not_pawn.
+    + unfold piece_at. rewrite (Hemp rt Hrin), Hfl. unfold mk_piece, PAWN. lia.
+  - pose proof (at_make_castle p kf kt rf rt Hl L1 L2 L3 L4 Hrcs) as Hat. rewrite Hk in Hat. fold m in Hat.
+    rewrite (castle_checks_exact (make p m) (code m) kf rt (flip (stm p))); try assumption.
+    + f_equal. rewrite Hbad.
+      assert (Hg : castle_legal_geom_ok kf kt rf rt empties = true).
+      { pose proof castle_legal_geom_all as H. rewrite forallb_forall in H.
+        assert (Hi : In (stm p) [0; 1]) by (cbn; lia). specialize (H _ Hi). rewrite forallb_forall in H.
+        exact (H _ Hc). }
+      exact (castle_squares_same (brd p) (brd (make p m)) (stm p) kf kt rf rt empties Hs Hl
+               (conj L1 (conj L2 (conj L3 L4))) Hk Hr Hemp Hkin Hrin Hg Hat (occ_of (brd p)) (occ_of (brd (make p m)))
+               eq_refl eq_refl).
+    + now apply wf_att_make.
+    + now apply flip_lt.
+    + rewrite E1, Htr1, Htr2. reflexivity.
+    + unfold piece_at. rewrite Hat. apply N.eqb_neq in D1, D2, D3. rewrite D3, D2, D1, N.eqb_refl.
+      unfold mk_piece, PAWN. lia.
+    + unfold piece_at. rewrite Hat, N.eqb_refl, Hfl. unfold mk_piece, PAWN, ROOK. lia.
+Qed.
+
+Theorem legal_pre_post_agree p m : legal_pos p = true -> In m (pseudo p) ->
+  is_legal_impl (view_of_spec p) (view_of_spec (make p m)) (code m) = Some (is_legal p m) /\
+  was_legal_impl (view_of_spec (make p m)) (code m) = Some (is_legal p m).
+Proof.
+  intros Hlp Hin. pose proof (pseudo_inv p m Hin) as Hk.
+  pose proof (legal_pos_facts p Hlp) as Hf. pose proof (lf_stm _ _ Hf) as Hs.
+  destruct (pm_kind_bounds p m Hs Hk) as (B1 & B2 & B3 & B4).
+  destruct (decode_code m B2 B1 B3 B4) as (E1 & E2 & E3 & E4).
+  pose proof (after_check_exact p m _ Hlp Hf Hk) as Hafter.
+  unfold is_legal_impl, was_legal_impl. rewrite E3.
+  set (v' := view_of_spec (make p m)) in *.
+  destruct (king_square v' (flipc (vstm v'))) as [k|]; [|discriminate]. cbn [bind] in Hafter |- *.
+  rewrite Hafter. cbn [bind].
+  assert (Hvs : vstm v' = flip (stm p)) by reflexivity.
+  assert (Hvp : vstm (view_of_spec p) = stm p) by reflexivity.
+  rewrite Hvs, Hvp. rewrite flipc_flip by exact Hs.
+  unfold is_legal.
+  destruct Hk as [H1 H2 H3 H4 H5 H6 | H1 H2 H3 H4 H5 H6 H7 H8 | kf kt rf bt empties Hc Hm Hki Hr He].
+  - assert (Hnc : (mtype m =? CASTLING) = false) by (destruct H6 as [[-> _]|[-> _]]; reflexivity).
+    rewrite Hnc. cbn [bind andb]. split; [reflexivity|]. apply negb_if.
+  - assert (Hnc : (mtype m =? CASTLING) = false) by (rewrite H1; reflexivity).
+    rewrite Hnc. cbn [bind andb]. split; [reflexivity|]. apply negb_if.
+  - subst m. destruct (castle_clauses p kf kt rf bt empties Hlp Hc Hki Hr He) as [C1 C2]. cbv zeta in C1, C2.
+    subst v'. rewrite C1, C2. cbn [mtype mfrom mto].
+    change (CASTLING =? CASTLING) with true. cbv iota. cbn [bind].
+    generalize (attacked (brd p) kf (flip (stm p))) (attacked (brd p) (castle_transit kt) (flip (stm p)))
+      (in_check_b (brd (make p (mkmv kf kt CASTLING 3))) (stm p)).
+    intros [|] [|] [|]; split; reflexivity.
+Qed.
+
+Corollary is_legal_exact p m : legal_pos p = true -> In m (pseudo p) ->
+  is_legal_impl (view_of_spec p) (view_of_spec (make p m)) (code m) = Some (is_legal p m).
+Proof. intros H1 H2. apply (legal_pre_post_agree p m H1 H2). Qed.
+
+Corollary was_legal_exact p m : legal_pos p = true -> In m (pseudo p) ->
+  was_legal_impl (view_of_spec (make p m)) (code m) = Some (is_legal p m).
+Proof. intros H1 H2. apply (legal_pre_post_agree p m H1 H2). Qed.
+
+(** ** C09 on any view that is the view of a legal specification position
+    (the plug for the position model: establish [WFview (view_of_impl P) (abs P)]) *)
+Theorem c09_on_views v p : WFview v p -> legal_pos p = true ->
+  (forall s c, s < 64 -> c < 2 ->
+     is_attacked_impl v s c = Some (is_attacked_spec p s c) /\
+     attacks_to_impl v s c = Some (attacks_to_spec p s c)) /\
+  has_check_impl v = Some (in_check p) /\
+  (forall m, In m (legal p) -> gives_check_impl v (code m) = Some (gives_check p m)) /\
+  (forall m v', In m (pseudo p) -> WFview v' (make p m) ->
+     is_legal_impl v v' (code m) = Some (is_legal p m) /\
+     was_legal_impl v' (code m) = Some (is_legal p m)).
+Proof.
+  intros Hv Hlp. unfold WFview in Hv. subst v. repeat split.
+  - now apply is_attacked_exact.
+  - now apply attacks_to_exact.
+  - now apply has_check_exact.
+  - intros m Hm. now apply gives_check_exact.
+  - unfold WFview in H0. subst v'. now apply is_legal_exact.
+  - unfold WFview in H0. subst v'. now apply was_legal_exact.
+Qed.
